@@ -313,8 +313,13 @@ class StickyAssignmentExecutor:
             list(self.partition_to_all_potential_consumers.values())
         ):
             return False
+        # the order of a member's potential partitions follows the order of the
+        # topics in its subscription, which carries no meaning
         return has_identical_list_elements(
-            list(self.consumer_to_all_potential_partitions.values())
+            [
+                sorted(partitions)
+                for partitions in self.consumer_to_all_potential_partitions.values()
+            ]
         )
 
     def _populate_sorted_partitions(self) -> None:
